@@ -555,6 +555,94 @@ func main() {
 		}
 	})
 
+	// hole placement: an outer ring the box cuts into two lobes, and a hole that stays inside one of them. The
+	// hole's vertices share their coordinates with vertices of the other lobe (half-integer grid), which is
+	// where a point-in-ring test has its degenerate cases.
+	r.Explore("hole-placement", "box [0,10]^2; an outer ring with two lobes hanging through one side (4 rotations) x 25 ways to put an extra pass-through vertex on a lobe edge (edge, level, displacement) x unit hole at 24 half-grid positions in either lobe x both orientations x every start vertex: region on a half-unit lattice, two result polygons, the hole attached to the lobe that contains it", mc.Opts{MaxDev: -1, Split: 3}, func(c *mc.Ctx) {
+		rot := c.Choose(4)
+		o := orb.CCW
+		if c.Bool() {
+			o = orb.CW
+		}
+		tv := c.Choose(25)
+		hl := c.Choose(24)
+		outer := []orb.Point{{1, 1}, {4, 1}, {4, 11}, {6, 11}, {6, 1}, {9, 1}, {9, 13}, {1, 13}}
+		if tv > 0 {
+			e, lvl, dx := (tv-1)/6, float64(2+(tv-1)/3%2), []float64{0, 0.25, -0.25}[(tv-1)%3]
+			after := []int{7, 1, 3, 5}[e] // LL, LR, RL, RR: insert after this vertex
+			x := []float64{1, 4, 6, 9}[e]
+			ins := orb.Point{x + dx, lvl}
+			outer = append(outer[:after+1], append([]orb.Point{ins}, outer[after+1:]...)...)
+		}
+		lobe := hl / 12
+		hx := []float64{1, 6}[lobe] + []float64{0.5, 1, 1.5}[hl%12/4]
+		hy := []float64{1.5, 2, 2.5, 3}[hl%4]
+		hole := []orb.Point{{hx, hy}, {hx, hy + 1}, {hx + 1, hy + 1}, {hx + 1, hy}}
+		turn := func(ps []orb.Point) orb.Ring {
+			out := make(orb.Ring, len(ps))
+			for i, p := range ps {
+				for k := 0; k < rot; k++ {
+					p = orb.Point{10 - p[1], p[0]}
+				}
+				out[i] = p
+			}
+			return out
+		}
+		or, hr := turn(outer), turn(hole)
+		st := c.Choose(9) % len(or)
+		or = append(append(orb.Ring{}, or[st:]...), or[:st]...)
+		or = append(or, or[0])
+		hr = append(hr, hr[0])
+		if o == orb.CW {
+			or.Reverse()
+			hr.Reverse()
+		}
+		box := orb.Bound{Min: orb.Point{0, 0}, Max: orb.Point{10, 10}}
+		poly := orb.Polygon{or, hr}
+		c.NonTrivial()
+		for variant := 0; variant < 2; variant++ {
+			var got orb.MultiPolygon
+			if variant == 0 {
+				got = smartclip.Polygon(box, poly.Clone(), o)
+			} else {
+				got = smartclip.MultiPolygon(box, orb.MultiPolygon{poly.Clone()}, o)
+			}
+			desc := fmt.Sprintf("via=%s box=%v orientation=%d polygon=%v result=%v", []string{"Polygon", "MultiPolygon"}[variant], box, o, poly, got)
+			if len(got) != 2 {
+				c.Failf("hole-placement:polygons", "the box cuts the outer ring into two lobes, the result has %d polygons | %s", len(got), desc)
+				return
+			}
+			for _, gp := range got {
+				if len(gp) == 0 || len(gp[0]) < 4 || gp[0][0] != gp[0][len(gp[0])-1] {
+					c.Failf("hole-placement:ring-shape", "result polygon without a closed outer ring | %s", desc)
+					return
+				}
+				if sh := shoelace(gp[0]); (sh > 0) != (o == orb.CCW) {
+					c.Failf("hole-placement:winding", "outer ring %v winds against the requested orientation | %s", gp[0], desc)
+					return
+				}
+			}
+			for i := 0; i < 20; i++ {
+				for j := 0; j < 20; j++ {
+					q := orb.Point{float64(i)/2 + 1.0/7, float64(j)/2 + 1.0/11}
+					want := inFloat(or, q) && !inFloat(hr, q)
+					if have := inMulti(got, q); have != want {
+						c.Failf("hole-placement:region", "point %v: in the smart-clipped result = %v, in the original region = %v | %s", q, have, want, desc)
+						return
+					}
+				}
+			}
+			centre := orb.Point{(hr[0][0] + hr[2][0]) / 2, (hr[0][1] + hr[2][1]) / 2}
+			for _, gp := range got {
+				contains := inFloat(gp[0], centre)
+				if contains && len(gp) != 2 || !contains && len(gp) != 1 {
+					c.Failf("hole-placement:attachment", "the lobe %v contains the hole: %v, and carries %d inner rings | %s", gp[0], contains, len(gp)-1, desc)
+					return
+				}
+			}
+		}
+	})
+
 	// open input: contiguous sub-paths cut at the box
 	r.Explore("open-subpaths", "every simple ring of 3..4 grid vertices x every contiguous sub-path that starts and ends outside the closed general-position box and contains all of the ring's contact with it, fed as an open ring with its winding: the result encloses region x box", mc.Opts{MaxDev: -1, Split: 2}, func(c *mc.Ctx) {
 		n := 3 + c.Choose(2)
